@@ -29,7 +29,7 @@ def check_mask_laws(s, rule="C16.1"):
     self_ = ("param", "self")
     mask = ("param", "mask")
     for cls in ("Categorical", "Bernoulli"):
-        b = s.builder(inline=set())
+        b = s.builder(inline={"logits"})  # self.logits is read through to the wrapped law's logits (the property forwards them)
         nz = Normalizer(b)
         p = one(s.paths(b, cls, "mask"), f"{cls}.mask")
         loc = s.loc(cls, "mask")
